@@ -356,7 +356,6 @@ func (c *Check) idMapping() {
 	c.parseWidthRule("R2")
 }
 
-
 func intWidth(t types.Type) int64 {
 	b, ok := t.Underlying().(*types.Basic)
 	if !ok {
